@@ -34,7 +34,7 @@ NAMES = ['a', 'b', 'Web', 'dB']
 DOC_OPTS = [('graceful_timeout', ['0.2', '0.5', '1']), ('warmup_delay', ['0', '1']), ('priority', ['0', '1', '5']),
             ('max_retry', ['3', '5']), ('stop_signal', ['TERM', 'INT', '10']),
             ('send_hup', ['true', 'false']), ('stop_children', ['true', 'false']), ('working_dir', ['/tmp', '/']),
-            ('copy_env', ['true', 'false']), ('max_age', ['0']), ('myopt', ['1', '2', 'x']), ('other_opt', ['y', 'z']),
+            ('copy_env', ['true', 'false']), ('max_age', ['0']), ('autostart', ['false', 'true']), ('myopt', ['1', '2', 'x']), ('other_opt', ['y', 'z']),
             ('stdout_stream.class', ['StdoutStream', 'FancyStdoutStream']), ('stderr_stream.class', ['StdoutStream'])]
 
 
@@ -170,6 +170,11 @@ def run_case(spec):
                 v['kill'] = rk.randint(0, 7)
             if rk.random() < .25:
                 v['older_mtime'] = True
+        for v in versions[1:-1]:
+            if rk.random() < .15:
+                # this version is reloaded without waiting; the file is edited again and reloaded at once, while the
+                # first reload may still be at work: the daemon has to end up on the LAST version
+                v['overlap'] = True
     d = tempfile.mkdtemp(prefix='verif-c12-')
     nv = len(res.viol)
     try:
@@ -214,6 +219,7 @@ def _chain(versions, d, res):
     with open(path, 'w') as f:
         f.write(render(versions[0]['model']))
     w = simhist.new_world({})
+    w.kernel.beh_for = lambda argv, n: {15: ('die', 0.15)}      # a stop takes 0.15 s: operations have a duration
     labels = []
     try:
         st = {}
@@ -226,6 +232,7 @@ def _chain(versions, d, res):
         w.run(boot)
         prev_cfg = {x['name']: x for x in get_config(path)['watchers']}
         stale, pend = {}, {}          # per watcher: mechanism bookkeeping for the known findings
+        after_overlap = False
         for i, ver in enumerate(versions[1:], 1):
             lab = ver['label']
             labels.append(lab)
@@ -242,6 +249,15 @@ def _chain(versions, d, res):
             new_cfg = {x['name']: x for x in get_config(path)['watchers']}
             w.activate()
             k = w.kernel
+            if ver.get('overlap') and not ver.get('kill'):
+                @gen.coroutine
+                def fire():
+                    w.req('reloadconfig')          # not waiting: answered at once, the work goes on
+                    yield w.advance(0.01)
+                w.run(fire)
+                res.obs['reloadconfig_fired_without_waiting'] += 1
+                after_overlap = True
+                continue
             # sometimes a worker dies (killed from outside) just before the request, and no periodic check has seen
             # it yet: the reload must not take that for a reason to touch the healthy ones
             killed = None
@@ -259,6 +275,13 @@ def _chain(versions, d, res):
             @gen.coroutine
             def reload(killed=killed):
                 box['rep'] = yield w.call('reloadconfig', waiting=True)
+                for attempt in range(200):
+                    # refused because the earlier reload is still running: the client tries again
+                    r_ = box['rep']
+                    if not (isinstance(r_, dict) and r_.get('status') == 'error' and 'already running' in str(r_.get('reason'))):
+                        break
+                    yield w.advance(0.1)
+                    box['rep'] = yield w.call('reloadconfig', waiting=True)
                 yield w.settle(120)
                 yield w.advance(0.05)
                 box['after_reload'] = {n: set(k.live(simhist.tag_of(n))) for n in NAMES}
@@ -329,7 +352,8 @@ def _chain(versions, d, res):
                     res.violation('C12/removed-watcher-workers-alive', 'watcher %s is not in the file any more but its '
                                   'workers %s are still running (edits %s)' % (n, sorted(after_pids[n]), labels))
             # (b) untouched watchers keep their pids; (c) numprocesses-only edits move only the difference
-            for n in set(prev_cfg) & set(new_cfg):
+            # (not judged right after an overlapped pair of reloads: what "the previous version" was is not defined)
+            for n in (set(prev_cfg) & set(new_cfg) if not after_overlap else ()):
                 a, b = prev_cfg[n], new_cfg[n]
                 if a == b:
                     res.obs['unchanged_watchers_judged'] += 1
@@ -351,12 +375,13 @@ def _chain(versions, d, res):
                                           'changed)' % (n, a['numprocesses'], b['numprocesses'],
                                                         sorted(before_pids[n]), sorted(after_pids[n])))
             # (d) unchanged file: nothing happens
-            if prev_cfg == new_cfg:
+            if prev_cfg == new_cfg and not after_overlap:
                 res.obs['unchanged_files_judged'] += 1
                 if activity:
                     res.violation('C12/unchanged-file-caused-activity', 'reloading an unchanged configuration produced %s'
                                   % activity[:4])
             prev_cfg = new_cfg
+            after_overlap = False
             if diverged:
                 break          # later versions would only show the same divergence again
         res.nontrivial(repr(labels))
